@@ -33,7 +33,7 @@ func classMatches(class, prefix string) bool {
 
 // evalLoc interprets a location expression of a modifies/sets clause.
 func (e *Env) evalLoc(ex contract.Expr, single bool) modLoc {
-	text := fmt.Sprint(ex)
+	text := contract.String(ex)
 	switch n := ex.(type) {
 	case *contract.Sel:
 		base := e.eval(n.X)
@@ -131,12 +131,20 @@ func (e *Env) hasField(t types.Type, name string) bool {
 	return e.x.P.ghostField(typeKey(t), name) != nil
 }
 
-func (e *Env) evalMods(spec *contract.FuncSpec) []modLoc {
+func (e *Env) evalMods(spec *contract.FuncSpec, withRep bool) []modLoc {
 	var out []modLoc
 	for _, m := range spec.Modifies {
 		out = append(out, e.evalLoc(m, false))
 	}
+	if withRep {
+		for _, m := range spec.ModRep {
+			out = append(out, e.evalLoc(m, false))
+		}
+	}
 	for _, s := range spec.Sets {
+		if _, ok := e.vars["result"]; !ok && mentions(s.E, "result") {
+			continue // a location inside the (fresh) result
+		}
 		out = append(out, e.evalLoc(s.E, true))
 	}
 	return out
@@ -215,6 +223,7 @@ func (x *Exec) havocClass(st *State, old *State, class string, mods []modLoc, al
 	}
 	oldArr := x.heapArr(st, class, s)
 	newArr := term.Fresh("H."+class, oldArr.Sort)
+	x.rangeAxiom(class, newArr)
 	r := term.Bound("r", term.Int)
 	var whole []*T // refs modified completely
 	type part struct {
@@ -318,7 +327,7 @@ func (x *Exec) Start() (*State, []Val) {
 		for _, r := range x.Spec.Requires {
 			x.assume(st, env.evalBool(r.E))
 		}
-		x.mods = env.evalMods(x.Spec)
+		x.mods = env.evalMods(x.Spec, true)
 		x.entry = st.clone()
 		x.cover(st, "pre", term.True)
 	}
@@ -395,6 +404,9 @@ func (x *Exec) checkPost(st *State, vals []Val) {
 	for i, s := range x.Spec.Sets {
 		sub := *env
 		sub.st = x.entry
+		if mentions(s.E, "result") {
+			sub.st = st
+		}
 		loc := sub.evalLoc(s.E, true)
 		want := env.eval(s.E2)
 		if loc.Ghost != nil && !x.P.bodyTouchesGhost(x.Fn, loc.Class) {
@@ -402,7 +414,13 @@ func (x *Exec) checkPost(st *State, vals []Val) {
 			continue
 		}
 		got := x.locValue(st, loc)
-		x.oblige(st, "post", fmt.Sprintf("sets#%s@return#%d", clauseLabel(s, i), x.retCount), env.equal(got, want), token.NoPos)
+		eq := env.equal(got, want)
+		if g, ok := got.(VMath); ok && g.T.Sort.K == term.KArr {
+			// pointwise form: easier for the solvers than extensionality on the negated goal
+			j := term.Bound("j", term.Int)
+			eq = term.Forall([]*T{j}, term.Eq(term.Select(g.T, j), term.Select(want.(VMath).T, j)))
+		}
+		x.oblige(st, "post", fmt.Sprintf("sets#%s@return#%d", clauseLabel(s, i), x.retCount), eq, token.NoPos)
 	}
 	for i, e := range x.Spec.Ensures {
 		c := env.evalBool(e.E)
@@ -488,4 +506,64 @@ func (x *Exec) lockOp(st *State, m *T, lock bool, pos token.Pos) {
 	}
 	x.lockReleased(st, m, pos)
 	delete(st.Locks, k)
+}
+
+// applyGhostSets performs the ghost updates that the `sets` clauses of an inlined leaf function
+// define (its body contains no ghost code; the clauses are the ghost code).
+func (x *Exec) applyGhostSets(st *State, fn *ssa.Function, spec *contract.FuncSpec, entry *State, args, results []Val) {
+	env := x.newEnv(st, fn, spec)
+	env.old = entry
+	for i, p := range fn.Params {
+		env.vars[p.Name()] = args[i]
+		env.vars[p.Name()+"0"] = args[i]
+	}
+	if len(results) == 1 {
+		env.vars["result"] = results[0]
+	} else if len(results) > 1 {
+		env.vars["result"] = VTuple(results)
+	}
+	for _, s := range spec.Sets {
+		sub := *env
+		sub.st = entry
+		if mentions(s.E, "result") {
+			sub.st = st
+		}
+		loc := sub.evalLoc(s.E, true)
+		if loc.Ghost == nil || x.P.bodyTouchesGhost(fn, loc.Class) {
+			continue
+		}
+		x.assignLoc(st, loc, env.eval(s.E2))
+	}
+}
+
+// mentions reports whether identifier name occurs in e.
+func mentions(e contract.Expr, name string) bool {
+	switch n := e.(type) {
+	case *contract.Ident:
+		return n.Name == name
+	case *contract.Unary:
+		return mentions(n.X, name)
+	case *contract.Binary:
+		return mentions(n.X, name) || mentions(n.Y, name)
+	case *contract.Cond:
+		return mentions(n.C, name) || mentions(n.A, name) || mentions(n.B, name)
+	case *contract.Call:
+		for _, a := range n.Args {
+			if mentions(a, name) {
+				return true
+			}
+		}
+		return mentions(n.Fun, name)
+	case *contract.Index:
+		return mentions(n.X, name) || mentions(n.I, name)
+	case *contract.Slice:
+		return mentions(n.X, name) || (n.Lo != nil && mentions(n.Lo, name)) || (n.Hi != nil && mentions(n.Hi, name))
+	case *contract.Sel:
+		return mentions(n.X, name)
+	case *contract.Quant:
+		return mentions(n.Body, name)
+	case *contract.Old:
+		return mentions(n.X, name)
+	}
+	return false
 }
